@@ -586,7 +586,33 @@ where
                 },
                 other => acc.violate(Violation { prop: "C16", kind: "serialize-differs".into(), case: case.clone(), detail: format!("to_string gives {:?}", other.map_err(|e| e.to_string())) }),
             }
-            // values that are not strings are refused
+            // values that are not strings are refused: byte strings, numbers, booleans, unit, sequences
+            {
+                use serde::de::value::{BoolDeserializer, BorrowedBytesDeserializer, BytesDeserializer, Error as VErr, SeqDeserializer, U64Deserializer, UnitDeserializer};
+                acc.calls += 6;
+                let mut accepted: Vec<&str> = Vec::new();
+                if GenericPurl::<T>::deserialize(BytesDeserializer::<VErr>::new(text.as_bytes())).is_ok() {
+                    accepted.push("bytes");
+                }
+                if GenericPurl::<T>::deserialize(BorrowedBytesDeserializer::<VErr>::new(text.as_bytes())).is_ok() {
+                    accepted.push("borrowed bytes");
+                }
+                if GenericPurl::<T>::deserialize(U64Deserializer::<VErr>::new(7)).is_ok() {
+                    accepted.push("u64");
+                }
+                if GenericPurl::<T>::deserialize(BoolDeserializer::<VErr>::new(true)).is_ok() {
+                    accepted.push("bool");
+                }
+                if GenericPurl::<T>::deserialize(UnitDeserializer::<VErr>::new()).is_ok() {
+                    accepted.push("unit");
+                }
+                if GenericPurl::<T>::deserialize(SeqDeserializer::<_, VErr>::new(vec![text.clone()].into_iter())).is_ok() {
+                    accepted.push("sequence of one string");
+                }
+                if !accepted.is_empty() {
+                    acc.violate(Violation { prop: "C16", kind: "non-string-accepted".into(), case: case.clone(), detail: format!("a value that is not a string ({}) carrying the text {:?} deserialises to a PURL", accepted.join(", "), text) });
+                }
+            }
             for v in [serde_json::json!(null), serde_json::json!(true), serde_json::json!(0), serde_json::json!(1.5), serde_json::json!([text.clone()]), serde_json::json!({"purl": text.clone()}), serde_json::json!([[text.clone()]]), serde_json::json!({"a": {"b": text.clone()}})] {
                 acc.calls += 1;
                 if let Ok(q) = serde_json::from_value::<GenericPurl<T>>(v.clone()) {
